@@ -151,6 +151,15 @@ type target struct {
 	parse  func(r io.Reader, whole []byte) result
 	// valid: is this spool, by itself, a completely valid feed (see valid.go)
 	valid func(spool []byte) bool
+	// class names the still-valid finding (default: the target's name)
+	class string
+}
+
+func (t *target) findingClass() string {
+	if t.class != "" {
+		return "still-valid-" + t.class
+	}
+	return "still-valid-" + t.name
 }
 
 var bg = context.Background()
